@@ -33,6 +33,21 @@ Theorem C02_source_facts : c02_source_facts = true.
 Proof. exact source_facts_hold. Qed.
 Print Assumptions C02_source_facts.
 
+(* ... and the source ORDER of the calls inside copyGraph.fn / ExtendedCopyGraph / copyNode / doCopyNode
+   (translator kind callseq) is the order of the program counters / phases of the two models. *)
+Theorem C02_source_call_order :
+  c02_calls_copygraph =
+    [b "tracker.TryCommit"; b "close"; b "dst.Exists"; b "opts.OnCopySkipped"; b "opts.FindSuccessors";
+     b "removeForeignLayers"; b "region.End"; b "syncutil.Go"; b "tracker.TryCommit"; b "region.Start";
+     b "proxy.Cache.Exists"; b "copyNode"; b "mountOrCopyNode"; b "syncutil.Go"]%string /\
+  c02_calls_extendedcopygraph =
+    [b "findRoots"; b "semaphore.NewWeighted"; b "cas.NewProxyWithLimit"; b "status.NewTracker"; b "syncutil.Go";
+     b "region.End"; b "copyGraph"; b "region.Start"]%string /\
+  c02_calls_copynode = [b "opts.PreCopy"; b "doCopyNode"; b "opts.PostCopy"]%string /\
+  c02_calls_docopynode = [b "src.Fetch"; b "newCopyError"; b "rc.Close"; b "dst.Push"; b "newCopyError"]%string.
+Proof. exact source_call_order_holds. Qed.
+Print Assumptions C02_source_call_order.
+
 (* A destination that started link-closed is link-closed after every accepted trace --
    successful, failed, cancelled, or still running. *)
 Theorem C02_closed_always :
